@@ -484,3 +484,790 @@ Proof.
     + rewrite (Fo _ N). apply i_rd0.
   - subst s'. cbn. rewrite i_norace0. cbn. rewrite covers_forallb; auto.
 Qed.
+Lemma na_write_frame s t c x :
+  let s' := na_write s t c x in
+  hist s' = hist s /\ nb s' = nb s /\ tsame s s' /\
+  (forall c', c' <> c -> na s' c' = na s c') /\
+  (forall c', rds (na s' c') = rds (na s c')) /\
+  na s' c = {| nval := x; wrs := (t, S (vc (tv (thr s t)) t)) :: wrs (na s c); rds := rds (na s c) |} /\
+  vc (tv (thr s' t)) t = S (vc (tv (thr s t)) t).
+Proof.
+  unfold na_write; cbn. split; [reflexivity|]. split; [reflexivity|]. split; [|split; [|split; [|split]]].
+  - intro t'. cbn. destruct (Nat.eq_dec t' t) as [->|N].
+    + rewrite !upd_eq. cbn. split; [apply vle_tick | repeat split].
+    + rewrite !upd_neq by auto. split; [apply vle_refl | repeat split].
+  - intros c' N. rewrite upd_neq by auto. reflexivity.
+  - intro c'. destruct (cell_dec c' c) as [->|N]; [rewrite upd_eq; reflexivity | rewrite upd_neq by auto; reflexivity].
+  - rewrite upd_eq. reflexivity.
+  - rewrite upd_eq. cbn. rewrite upd_eq. reflexivity.
+Qed.
+
+Lemma na_write_Inv s t c x :
+  Inv s ->
+  (forall b, bucket_of c = Some b ->
+     powner (pst (thr s t)) = Some b /\ (c = Next b -> forall e, pst (thr s t) = PLoop b e true -> x = e)) ->
+  (forall b k, c = Data b k ->
+     wrs (na s c) = [] /\ rds (na s c) = [] /\ k < length (hist s (Len b)) /\ forall t', tw (thr s t') <> Some (b, k)) ->
+  Inv (na_write s t c x).
+Proof.
+  intros I Hb Hd.
+  destruct (na_write_frame s t c x) as (Fh & Fb & Ft & Fo & Fr & Fc & Fv).
+  remember (na_write s t c x) as s' eqn:Es.
+  assert (Tv : forall t, vle (tv (thr s t)) (tv (thr s' t))) by (intro t0; apply Ft).
+  assert (Tc : forall t, cur (thr s' t) = cur (thr s t)) by (intro t0; apply Ft).
+  assert (Tp : forall t, pst (thr s' t) = pst (thr s t)) by (intro t0; apply Ft).
+  assert (Tw : forall t, tw (thr s' t) = tw (thr s t)) by (intro t0; apply Ft).
+  assert (Th : forall t, have (thr s' t) = have (thr s t)) by (intro t0; apply Ft).
+  destruct I as [i_clock0 i_head0 i_chain0 i_cur0 i_own0 i_written0 i_nolate0 i_fresh0 i_dfresh0 i_tw0 i_have0 i_lock0 i_rd0 i_norace0].
+  assert (G : forall e, snd e <= vc (tv (thr s (fst e))) (fst e) -> snd e <= vc (tv (thr s' (fst e))) (fst e)).
+  { intros e G. specialize (Tv (fst e) (fst e)). lia. }
+  (* cells of a bucket not owned by t are untouched *)
+  assert (NB : forall b c', bucket_of c' = Some b -> powner (pst (thr s t)) <> Some b -> c' <> c).
+  { intros b c' Q N ->. apply N. apply (Hb b Q). }
+  constructor; unfold bcov in *; try rewrite Fh; try rewrite Fb.
+  - intros c' e H. rewrite Fr in H.
+    destruct (cell_dec c' c) as [->|N].
+    + rewrite Fc in H. cbn in H. destruct H as [[<-|H]|H]; [cbn; rewrite Fv; lia | apply G; eauto | apply G; eauto].
+    + rewrite (Fo c' N) in H. apply G; eauto.
+  - intros i m b H1 H2. destruct (i_head0 i m b H1 H2) as (A & B & C & D).
+    rewrite (Fo (Cap b)), (Fo (Next b)), (Fo (LenI b)) by (eapply NB; [reflexivity | apply D]).
+    refine (conj A (conj B (conj C _))). intro t0. rewrite Tp. auto.
+  - exact i_chain0.
+  - intros t0 b H. rewrite Tc in H. destruct (i_cur0 t0 b H) as (i & m & A & B & C).
+    exists i, m. split; [auto|split; [auto|]]. eapply vle_trans; [exact C | apply Tv].
+  - intros t0 b H. rewrite Tp in H. destruct (i_own0 t0 b H) as (A & B & C & D & E & F). rewrite !Fr.
+    refine (conj A (conj _ (conj C (conj D (conj E _))))); [|intros t'; rewrite Tp; auto].
+    assert (W : forall c' e, bucket_of c' = Some b -> In e (wrs (na s' c')) -> In e (wrs (na s c')) \/ fst e = t0).
+    { intros c' e Q H1. destruct (cell_dec c' c) as [->|N].
+      - rewrite Fc in H1. cbn in H1. destruct H1 as [<-|H1]; [right|left; auto].
+        cbn. apply F. apply (Hb b Q).
+      - rewrite (Fo c' N) in H1. auto. }
+    intros e [H1|[H1|H1]]; (eapply W in H1; [|reflexivity]); destruct H1 as [H1|H1]; auto.
+  - intros t0 b e. rewrite Tp. intro H. destruct (cell_dec (Next b) c) as [E|N].
+    + rewrite E, Fc. cbn. destruct (Hb b) as [O X]; [rewrite <- E; reflexivity|].
+      destruct (i_own0 t0 b) as (_ & _ & _ & _ & _ & F); [rewrite H; reflexivity|].
+      rewrite (F t O) in *. apply X; auto.
+    + rewrite (Fo _ N). eapply i_written0; eauto.
+  - intros t0 b e. rewrite Tp. apply i_nolate0.
+  - intros b H. destruct (i_fresh0 b H) as (A & B & C & D).
+    assert (N : powner (pst (thr s t)) <> Some b).
+    { intro O. destruct (i_own0 t b O) as (X & _). lia. }
+    rewrite (Fo (Cap b)), (Fo (Next b)), (Fo (LenI b)) by (eapply NB; [reflexivity | exact N]). auto.
+  - intros b k H. destruct (cell_dec (Data b k) c) as [E|N].
+    + destruct (Hd b k (eq_sym E)) as (_ & _ & X & _). exact X.
+    + rewrite (Fo _ N) in H. auto.
+  - intros t0 b k. rewrite Tw. intro H. destruct (i_tw0 t0 b k H) as (A & B & C & D).
+    destruct (cell_dec (Data b k) c) as [E|N].
+    + exfalso. destruct (Hd b k (eq_sym E)) as (_ & _ & _ & X). apply (X t0 H).
+    + rewrite (Fo _ N). refine (conj A (conj B (conj C _))). intros t'. rewrite Tw. auto.
+  - intros t0 b k. rewrite Th. intro H. destruct (i_have0 t0 b k H) as (A & B).
+    destruct (cell_dec (Data b k) c) as [E|N].
+    + exfalso. destruct (Hd b k (eq_sym E)) as (X & _). rewrite <- E in X. auto.
+    + rewrite (Fo _ N). split; auto. eapply covers_mono; [apply Tv | exact B].
+  - intros l i m b k H1 H2. destruct (i_lock0 l i m b k H1 H2) as (A & B).
+    destruct (cell_dec (Data b k) c) as [E|N].
+    + exfalso. destruct (Hd b k (eq_sym E)) as (X & _). rewrite <- E in X. auto.
+    + rewrite (Fo _ N). auto.
+  - intros b k. destruct (cell_dec (Data b k) c) as [E|N].
+    + intros _. rewrite E, Fc. cbn. discriminate.
+    + rewrite (Fo _ N). apply i_rd0.
+  - subst s'. cbn. rewrite i_norace0. cbn.
+    assert (X : covers (tv (thr s t)) (wrs (na s c)) /\ covers (tv (thr s t)) (rds (na s c))).
+    { destruct c as [b|b|b|b k].
+      1-3: destruct (Hb b eq_refl) as [O _]; destruct (i_own0 t b O) as (_ & B & C & D & E & _).
+      1-3: (split; [intros e H; assert (Q : fst e = t) by (apply B; auto); specialize (i_clock0 _ e (or_introl H)); rewrite Q in *; exact i_clock0 |]).
+      1: rewrite C. 2: rewrite D. 3: rewrite E. 1-3: apply covers_nil.
+      destruct (Hd b k eq_refl) as (A & B & _). rewrite A, B. split; apply covers_nil. }
+    destruct X as [X1 X2]. rewrite !covers_forallb; auto.
+Qed.
+(* a change of the local fields of one thread *)
+Lemma Inv_thr1 s s' t :
+  hist s' = hist s -> na s' = na s -> nb s' = nb s -> raced s' = raced s ->
+  (forall t', t' <> t -> thr s' t' = thr s t') -> tv (thr s' t) = tv (thr s t) ->
+  (forall b, cur (thr s' t) = Some b -> cur (thr s t) = Some b \/
+     exists i m, nth_error (hist s Head) i = Some m /\ mval m = S b /\ vle (mview m) (tv (thr s t))) ->
+  powner (pst (thr s' t)) = powner (pst (thr s t)) ->
+  (forall b e, pst (thr s' t) = PLoop b e true -> nval (na s (Next b)) = e) ->
+  (forall b e, pst (thr s' t) <> PLate b e) ->
+  (forall b k, tw (thr s' t) = Some (b, k) -> tw (thr s t) = Some (b, k) \/
+     (wrs (na s (Data b k)) = [] /\ rds (na s (Data b k)) = [] /\ k < length (hist s (Len b)) /\
+      forall t', tw (thr s t') <> Some (b, k))) ->
+  (forall b k, In (b, k) (have (thr s' t)) -> In (b, k) (have (thr s t)) \/
+     (wrs (na s (Data b k)) <> [] /\ covers (tv (thr s t)) (wrs (na s (Data b k))))) ->
+  Inv s -> Inv s'.
+Proof.
+  intros Hh Hn Hb Hr Ho Hv Ccur Cown Cwr Cnl Ctw Chv I.
+  destruct I as [i_clock0 i_head0 i_chain0 i_cur0 i_own0 i_written0 i_nolate0 i_fresh0 i_dfresh0 i_tw0 i_have0 i_lock0 i_rd0 i_norace0].
+  assert (Tv : forall t0, tv (thr s' t0) = tv (thr s t0)).
+  { intro t0. destruct (Nat.eq_dec t0 t) as [->|N]; [auto | rewrite Ho; auto]. }
+  assert (To : forall t0, powner (pst (thr s' t0)) = powner (pst (thr s t0))).
+  { intro t0. destruct (Nat.eq_dec t0 t) as [->|N]; [auto | rewrite Ho; auto]. }
+  constructor; unfold bcov in *; try rewrite Hh; try rewrite Hn; try rewrite Hb; try rewrite Hr; auto.
+  - intros c e H. rewrite Tv. eauto.
+  - intros i m b H1 H2. destruct (i_head0 i m b H1 H2) as (A & B & C & D).
+    refine (conj A (conj B (conj C _))). intro t0. rewrite To. auto.
+  - intros t0 b H. rewrite Tv. destruct (Nat.eq_dec t0 t) as [->|N]; [|rewrite Ho in H; auto].
+    destruct (Ccur b H) as [H'|H']; auto.
+  - intros t0 b H. rewrite To in H. destruct (i_own0 t0 b H) as (A & B & C & D & E & F).
+    refine (conj A (conj B (conj C (conj D (conj E _))))). intros t'. rewrite To. auto.
+  - intros t0 b e H. destruct (Nat.eq_dec t0 t) as [->|N]; [eauto | rewrite Ho in H; eauto].
+  - intros t0 b e. destruct (Nat.eq_dec t0 t) as [->|N]; [auto | rewrite Ho; auto].
+  - intros t0 b k H.
+    assert (X : tw (thr s t0) = Some (b, k) \/ (t0 = t /\ wrs (na s (Data b k)) = [] /\ rds (na s (Data b k)) = [] /\
+                k < length (hist s (Len b)) /\ forall t', tw (thr s t') <> Some (b, k))).
+    { destruct (Nat.eq_dec t0 t) as [->|N]; [|rewrite Ho in H; auto]. destruct (Ctw b k H); auto. }
+    assert (Y : forall t', tw (thr s' t') = Some (b, k) -> tw (thr s t') = Some (b, k) \/ t' = t).
+    { intros t' H'. destruct (Nat.eq_dec t' t) as [->|N]; [auto | rewrite Ho in H'; auto]. }
+    destruct X as [X|(-> & A & B & C & D)].
+    + destruct (i_tw0 t0 b k X) as (A & B & C & D). refine (conj A (conj B (conj C _))).
+      intros t' H'. destruct (Y t' H') as [H2 | ->]; [auto|].
+      destruct (Nat.eq_dec t0 t) as [->|N]; [auto|].
+      destruct (Ctw b k H') as [Z|(_ & _ & _ & Z)]; [auto | exfalso; apply (Z t0 X)].
+    + refine (conj A (conj B (conj C _))). intros t' H'. destruct (Y t' H') as [H2 | ->]; [|auto].
+      exfalso. apply (D t' H2).
+  - intros t0 b k H. rewrite Tv. destruct (Nat.eq_dec t0 t) as [->|N]; [|rewrite Ho in H; auto].
+    destruct (Chv b k H) as [H'|H']; auto.
+Qed.
+Definition push_msg (s : state) (l : aloc) (m : msg) : state :=
+  {| hist := upd aloc_dec (hist s) l (hist s l ++ [m]); na := na s; thr := thr s; nb := nb s; raced := raced s |}.
+
+Lemma nth_error_snoc A (h : list A) (x y : A) i :
+  nth_error (h ++ [x]) i = Some y -> nth_error h i = Some y \/ (i = length h /\ y = x).
+Proof.
+  intro H. destruct (Nat.lt_ge_cases i (length h)) as [L|L].
+  - rewrite nth_error_app1 in H by auto. auto.
+  - rewrite nth_error_app2 in H by auto. right.
+    destruct (i - length h) as [|d] eqn:E; cbn in H; [inversion H; split; [lia|auto] | destruct d; discriminate].
+Qed.
+
+(* appending a message to a location other than the list head *)
+Lemma Inv_push s l m :
+  l <> Head -> (forall b, l = Len b -> b < nb s) ->
+  (forall l0 b k, l = Lk l0 -> In (b, k) (mpay m) ->
+     wrs (na s (Data b k)) <> [] /\ covers (mview m) (wrs (na s (Data b k)))) ->
+  Inv s -> Inv (push_msg s l m).
+Proof.
+  intros NH HL HK I.
+  destruct I as [i_clock0 i_head0 i_chain0 i_cur0 i_own0 i_written0 i_nolate0 i_fresh0 i_dfresh0 i_tw0 i_have0 i_lock0 i_rd0 i_norace0].
+  assert (HH : hist (push_msg s l m) Head = hist s Head) by (cbn; rewrite upd_neq by congruence; reflexivity).
+  assert (LL : forall b, length (hist s (Len b)) <= length (hist (push_msg s l m) (Len b))).
+  { intro b. cbn. destruct (aloc_dec (Len b) l) as [<-|N]; [rewrite upd_eq, app_length; lia | rewrite upd_neq by auto; lia]. }
+  constructor; unfold bcov in *; try rewrite HH; auto.
+  - intros b H. destruct (i_fresh0 b H) as (A & B & C & D). cbn in *.
+    rewrite upd_neq; [auto|]. intros <-. specialize (HL b eq_refl). lia.
+  - intros b k H. specialize (i_dfresh0 b k H). specialize (LL b). cbn in *. lia.
+  - intros t b k H. destruct (i_tw0 t b k H) as (A & B & C & D).
+    refine (conj A (conj B (conj _ D))). specialize (LL b). cbn in *. lia.
+  - intros l0 i m0 b k H1 H2. cbn in *. destruct (aloc_dec (Lk l0) l) as [<-|N].
+    + rewrite upd_eq in H1. apply nth_error_snoc in H1. destruct H1 as [H1|[_ ->]]; eauto.
+    + rewrite upd_neq in H1 by auto. eauto.
+Qed.
+
+Lemma tsame_upd_tv s t v :
+  vle (tv (thr s t)) v ->
+  forall t', vle (tv (thr s t')) (tv (upd Nat.eq_dec (thr s) t (with_tv (thr s t) v) t')) /\
+    cur (upd Nat.eq_dec (thr s) t (with_tv (thr s t) v) t') = cur (thr s t') /\
+    pst (upd Nat.eq_dec (thr s) t (with_tv (thr s t) v) t') = pst (thr s t') /\
+    tw (upd Nat.eq_dec (thr s) t (with_tv (thr s t) v) t') = tw (thr s t') /\
+    have (upd Nat.eq_dec (thr s) t (with_tv (thr s t) v) t') = have (thr s t').
+Proof.
+  intros H t'. destruct (Nat.eq_dec t' t) as [->|N].
+  - rewrite !upd_eq. cbn. split; [exact H | repeat split].
+  - rewrite !upd_neq by auto. split; [apply vle_refl | repeat split].
+Qed.
+
+Lemma a_rmw_other s t l o x s1 m n :
+  a_rmw s t l o x [] = Some (s1, m, n) -> l <> Head -> (forall b, l = Len b -> b < nb s) -> Inv s ->
+  Inv s1 /\ tsame s s1 /\ na s1 = na s /\ nb s1 = nb s /\ hist s1 Head = hist s Head /\
+  n = length (hist s l) /\ length (hist s1 l) = S n.
+Proof.
+  unfold a_rmw. destruct (nth_error (hist s l) (pred (length (hist s l)))) as [m'|]; [|discriminate].
+  intros H NH HL I. inversion H; subst; clear H.
+  set (mm := {| mval := x; mpay := []; mview := _ |}).
+  assert (V : vle (tv (thr s t)) (setco (if is_acq o then vjoin (tv (thr s t)) (mview m) else tv (thr s t)) l (length (hist s l)))).
+  { apply vle_setco_inv, vle_ifacq. }
+  split; [|split; [|split; [|split; [|split; [|split]]]]]; cbn; try reflexivity.
+  - apply (@Inv_grow (push_msg s l mm)); try reflexivity.
+    + intro t'. cbn. apply tsame_upd_tv. exact V.
+    + apply Inv_push; auto. intros l0 b k _ [].
+  - intro t'. cbn. apply tsame_upd_tv. exact V.
+  - rewrite upd_neq by congruence. reflexivity.
+  - rewrite upd_eq, app_length. cbn. lia.
+Qed.
+
+Lemma a_store_other s t l o x pay :
+  l <> Head -> (forall b, l <> Len b) ->
+  (forall b k, In (b, k) pay -> is_rel o = true /\ In (b, k) (have (thr s t))) -> Inv s ->
+  let s1 := a_store s t l o x pay in
+  Inv s1 /\ tsame s s1 /\ na s1 = na s /\ nb s1 = nb s /\ hist s1 Head = hist s Head.
+Proof.
+  intros NH NL HP I. unfold a_store.
+  set (mm := {| mval := x; mpay := pay; mview := _ |}).
+  assert (V : vle (tv (thr s t)) (setco (tv (thr s t)) l (length (hist s l)))) by apply vle_setco.
+  cbn. split; [|split; [|split; [|split]]]; cbn; try reflexivity.
+  - apply (@Inv_grow (push_msg s l mm)); try reflexivity.
+    + intro t'. cbn. apply tsame_upd_tv. exact V.
+    + apply Inv_push; auto.
+      * intros b ->. exfalso. apply (NL b eq_refl).
+      * intros l0 b k _ Hin. destruct (HP b k Hin) as [R Hh]. destruct (i_have I _ _ _ Hh) as [A B].
+        split; [exact A|]. subst mm. cbn. rewrite R. eapply covers_mono; [|exact B]. apply vle_setco.
+  - intro t'. cbn. apply tsame_upd_tv. exact V.
+  - rewrite upd_neq by congruence. reflexivity.
+Qed.
+(* THE publication step: a successful Release RMW on the list head by the thread that owns bucket b and has written
+   its [next] since it last read the head *)
+Lemma Inv_publish s s' t b e m mm :
+  Inv s -> pst (thr s t) = PLoop b e true ->
+  hist s' Head = hist s Head ++ [mm] -> (forall l, l <> Head -> hist s' l = hist s l) ->
+  na s' = na s -> nb s' = nb s -> raced s' = raced s ->
+  (forall t', t' <> t -> thr s' t' = thr s t') ->
+  vle (tv (thr s t)) (tv (thr s' t)) -> cur (thr s' t) = cur (thr s t) -> pst (thr s' t) = PNone ->
+  tw (thr s' t) = tw (thr s t) -> have (thr s' t) = have (thr s t) ->
+  mval mm = S b -> nth_error (hist s Head) (pred (length (hist s Head))) = Some m -> mval m = e ->
+  vle (mview m) (mview mm) -> vle (tv (thr s t)) (mview mm) ->
+  Inv s'.
+Proof.
+  intros I P HH HO Hn Hb Hr To Tv Tc Tp Tw Th Mv ML Me V1 V2.
+  destruct I as [i_clock0 i_head0 i_chain0 i_cur0 i_own0 i_written0 i_nolate0 i_fresh0 i_dfresh0 i_tw0 i_have0 i_lock0 i_rd0 i_norace0].
+  assert (O : powner (pst (thr s t)) = Some b) by (rewrite P; reflexivity).
+  destruct (i_own0 t b O) as (OA & OB & OC & OD & OE & OF).
+  assert (LN : length (hist s Head) = S (pred (length (hist s Head)))).
+  { assert (pred (length (hist s Head)) < length (hist s Head)) by (apply nth_error_Some; congruence). lia. }
+  assert (TV : forall t0, vle (tv (thr s t0)) (tv (thr s' t0))).
+  { intro t0. destruct (Nat.eq_dec t0 t) as [->|N]; [auto | rewrite To by auto; apply vle_refl]. }
+  assert (PO : forall t0 b0, powner (pst (thr s' t0)) = Some b0 -> t0 <> t /\ powner (pst (thr s t0)) = Some b0).
+  { intros t0 b0 H. destruct (Nat.eq_dec t0 t) as [->|N]; [rewrite Tp in H; discriminate | rewrite To in H by auto; auto]. }
+  assert (TW : forall t0, tw (thr s' t0) = tw (thr s t0)).
+  { intro t0. destruct (Nat.eq_dec t0 t) as [->|N]; [auto | rewrite To by auto; auto]. }
+  assert (LE : forall b0, hist s' (Len b0) = hist s (Len b0)) by (intro; apply HO; discriminate).
+  constructor; unfold bcov in *; try rewrite HH; try rewrite Hn; try rewrite Hb; try rewrite Hr; auto.
+  - intros c e0 H. specialize (i_clock0 c e0 H). specialize (TV (fst e0) (fst e0)). lia.
+  - intros i m0 b0 H1 H2. apply nth_error_snoc in H1. destruct H1 as [H1|[-> ->]].
+    + destruct (i_head0 i m0 b0 H1 H2) as (A & B & C & D). refine (conj A (conj B (conj _ _))).
+      * rewrite C. destruct i as [|j]; [reflexivity|]. cbn.
+        assert (j < length (hist s Head)) by (assert (S j < length (hist s Head)) by (apply nth_error_Some; congruence); lia).
+        rewrite nth_error_app1 by auto. reflexivity.
+      * intros t0 Q. apply PO in Q. destruct Q as [_ Q]. apply (D t0 Q).
+    + rewrite Mv in H2. inversion H2; subst b0. split; [exact OA|]. split; [|split].
+      * assert (X : forall c, bucket_of c = Some b -> covers (mview mm) (wrs (na s c))).
+        { intros c Q e0 H. assert (F : fst e0 = t).
+          { apply OB. destruct c; inversion Q; subst; auto. }
+          specialize (i_clock0 c e0 (or_introl H)). rewrite F in *. specialize (V2 t). lia. }
+        repeat split; apply X; reflexivity.
+      * rewrite (i_written0 _ _ _ P). rewrite LN. cbn.
+        rewrite nth_error_app1 by lia. rewrite ML. auto.
+      * intros t0 Q. apply PO in Q. destruct Q as [N Q]. apply N. apply OF. exact Q.
+  - intros i m1 m2 H1 H2. apply nth_error_snoc in H2. destruct H2 as [H2|[E ->]].
+    + assert (i < length (hist s Head)) by (assert (S i < length (hist s Head)) by (apply nth_error_Some; congruence); lia).
+      rewrite nth_error_app1 in H1 by auto. eauto.
+    + assert (i = pred (length (hist s Head))) by lia. subst i.
+      rewrite nth_error_app1 in H1 by lia. rewrite ML in H1. inversion H1; subst. exact V1.
+  - intros t0 b0 H.
+    assert (H' : cur (thr s t0) = Some b0).
+    { destruct (Nat.eq_dec t0 t) as [->|N]; [rewrite <- Tc; auto | rewrite To in H by auto; auto]. }
+    destruct (i_cur0 t0 b0 H') as (i & m0 & A & B & C). exists i, m0.
+    split; [|split; [auto|eapply vle_trans; [exact C|apply TV]]].
+    rewrite nth_error_app1; [auto|]. apply nth_error_Some. congruence.
+  - intros t0 b0 H. apply PO in H. destruct H as [N H]. destruct (i_own0 t0 b0 H) as (A & B & C & D & E & F).
+    refine (conj A (conj B (conj C (conj D (conj E _))))). intros t' Q. apply PO in Q. apply F. apply Q.
+  - intros t0 b0 e0 H. destruct (Nat.eq_dec t0 t) as [->|N]; [rewrite Tp in H; discriminate | rewrite To in H by auto; eauto].
+  - intros t0 b0 e0. destruct (Nat.eq_dec t0 t) as [->|N]; [rewrite Tp; discriminate | rewrite To by auto; auto].
+  - intros b0 H. rewrite LE. auto.
+  - intros b0 k H. rewrite LE. auto.
+  - intros t0 b0 k H. rewrite TW in H. rewrite LE. destruct (i_tw0 t0 b0 k H) as (A & B & C & D).
+    refine (conj A (conj B (conj C _))). intros t'. rewrite TW. auto.
+  - intros t0 b0 k H.
+    assert (H' : In (b0, k) (have (thr s t0))).
+    { destruct (Nat.eq_dec t0 t) as [->|N]; [rewrite <- Th; auto | rewrite To in H by auto; auto]. }
+    destruct (i_have0 t0 b0 k H') as (A & B). split; [auto|]. eapply covers_mono; [apply TV | exact B].
+  - intros l i m0 b0 k H. rewrite HO in H by discriminate. eauto.
+Qed.
+Lemma Inv_claim s t : Inv s -> pst (thr s t) = PNone -> Inv (claim s t).
+Proof.
+  intros I P.
+  destruct I as [i_clock0 i_head0 i_chain0 i_cur0 i_own0 i_written0 i_nolate0 i_fresh0 i_dfresh0 i_tw0 i_have0 i_lock0 i_rd0 i_norace0].
+  assert (HH : hist (claim s t) Head = hist s Head) by (unfold claim; cbn [hist]; rewrite upd_neq by discriminate; reflexivity).
+  assert (HK : forall l, hist (claim s t) (Lk l) = hist s (Lk l)) by (intro; unfold claim; cbn [hist]; rewrite upd_neq by discriminate; reflexivity).
+  assert (HL : forall b, b <> nb s -> hist (claim s t) (Len b) = hist s (Len b)).
+  { intros b N. unfold claim; cbn [hist]. rewrite upd_neq by congruence. reflexivity. }
+  assert (TV : forall t0, tv (thr (claim s t) t0) = tv (thr s t0)).
+  { intro t0. unfold claim; cbn [thr]. destruct (Nat.eq_dec t0 t) as [->|N]; [rewrite upd_eq | rewrite upd_neq by auto]; reflexivity. }
+  assert (TC : forall t0, cur (thr (claim s t) t0) = cur (thr s t0)).
+  { intro t0. unfold claim; cbn [thr]. destruct (Nat.eq_dec t0 t) as [->|N]; [rewrite upd_eq | rewrite upd_neq by auto]; reflexivity. }
+  assert (TW : forall t0, tw (thr (claim s t) t0) = tw (thr s t0)).
+  { intro t0. unfold claim; cbn [thr]. destruct (Nat.eq_dec t0 t) as [->|N]; [rewrite upd_eq | rewrite upd_neq by auto]; reflexivity. }
+  assert (TH : forall t0, have (thr (claim s t) t0) = have (thr s t0)).
+  { intro t0. unfold claim; cbn [thr]. destruct (Nat.eq_dec t0 t) as [->|N]; [rewrite upd_eq | rewrite upd_neq by auto]; reflexivity. }
+  assert (TP : pst (thr (claim s t) t) = PLoad (nb s)) by (unfold claim; cbn [thr]; rewrite upd_eq; reflexivity).
+  assert (TO : forall t0, t0 <> t -> pst (thr (claim s t) t0) = pst (thr s t0)).
+  { intros t0 N. unfold claim; cbn [thr]. rewrite upd_neq by auto. reflexivity. }
+  assert (OLD : forall t0 b0, powner (pst (thr s t0)) = Some b0 -> b0 < nb s).
+  { intros t0 b0 H. apply (i_own0 t0 b0 H). }
+  assert (PO : forall t0 b0, powner (pst (thr (claim s t) t0)) = Some b0 ->
+                (t0 = t /\ b0 = nb s) \/ (t0 <> t /\ b0 < nb s /\ powner (pst (thr s t0)) = Some b0)).
+  { intros t0 b0 H. destruct (Nat.eq_dec t0 t) as [->|N].
+    - rewrite TP in H. cbn in H. inversion H. auto.
+    - rewrite TO in H by auto. right. eauto. }
+  destruct (i_fresh0 (nb s) (le_n _)) as (FA & FB & FC & FD).
+  constructor; unfold bcov in *; try rewrite HH; change (na (claim s t)) with (na s);
+    change (nb (claim s t)) with (S (nb s)); change (raced (claim s t)) with (raced s); auto.
+  - intros c e H. rewrite TV. eauto.
+  - intros i m b0 H1 H2. destruct (i_head0 i m b0 H1 H2) as (A & B & C & D).
+    split; [lia|]. refine (conj B (conj C _)). intros t0 Q. apply PO in Q.
+    destruct Q as [[_ ->]|(_ & _ & Q)]; [lia | apply (D t0 Q)].
+  - intros t0 b0. rewrite TC, TV. auto.
+  - intros t0 b0 H. apply PO in H. destruct H as [[-> ->]|(N & L & H)].
+    + split; [lia|]. rewrite FA, FB, FC. cbn. split; [intros e [[]|[[]|[]]]|].
+      repeat (split; [reflexivity|]). intros t' Q. apply PO in Q. destruct Q as [[-> _]|(_ & L & _)]; [auto | lia].
+    + destruct (i_own0 t0 b0 H) as (A & B & C & D & E & F). split; [lia|].
+      refine (conj B (conj C (conj D (conj E _)))). intros t' Q. apply PO in Q.
+      destruct Q as [[_ ->]|(_ & _ & Q)]; [lia | auto].
+  - intros t0 b0 e H. destruct (Nat.eq_dec t0 t) as [->|N]; [rewrite TP in H; discriminate | rewrite TO in H by auto; eauto].
+  - intros t0 b0 e. destruct (Nat.eq_dec t0 t) as [->|N]; [rewrite TP; discriminate | rewrite TO by auto; auto].
+  - intros b0 H. destruct (i_fresh0 b0) as (A & B & C & D); [lia|]. rewrite HL by lia. auto.
+  - intros b0 k H. specialize (i_dfresh0 b0 k H). destruct (Nat.eq_dec b0 (nb s)) as [->|N].
+    + rewrite FD in i_dfresh0. cbn in i_dfresh0. lia.
+    + rewrite HL by auto. auto.
+  - intros t0 b0 k H. rewrite TW in H. destruct (i_tw0 t0 b0 k H) as (A & B & C & D).
+    destruct (Nat.eq_dec b0 (nb s)) as [->|N].
+    + rewrite FD in C. cbn in C. lia.
+    + rewrite HL by auto. refine (conj A (conj B (conj C _))). intros t'. rewrite TW. auto.
+  - intros t0 b0 k. rewrite TH, TV. auto.
+Qed.
+Lemma na_write_own s t b c x :
+  Inv s -> pst (thr s t) = PLoad b -> bucket_of c = Some b ->
+  let s' := na_write s t c x in
+  Inv s' /\ pst (thr s' t) = PLoad b /\ hist s' = hist s /\ nb s' = nb s /\ (forall t', tw (thr s' t') = tw (thr s t')) /\
+  (forall c', c' <> c -> na s' c' = na s c') /\ have (thr s' t) = have (thr s t).
+Proof.
+  intros I P Q s'. destruct (na_write_frame s t c x) as (Fh & Fb & Ft & Fo & Fr & Fc & Fv). fold s' in Fh, Fb, Ft, Fo.
+  split; [|split; [|split; [|split; [|split; [|split]]]]]; auto.
+  - apply na_write_Inv; auto.
+    + intros b0 Q0. rewrite Q in Q0. inversion Q0; subst b0. split; [rewrite P; reflexivity|].
+      intros _ e H. rewrite P in H. discriminate.
+    + intros b0 k ->. discriminate.
+  - destruct (Ft t) as (_ & _ & -> & _). exact P.
+  - intro t'. apply Ft.
+  - apply Ft.
+Qed.
+
+Lemma alloc_Inv s t : Inv s -> pst (thr s t) = PNone -> Inv (alloc s t).
+Proof.
+  intros I P. unfold alloc. set (b := nb s).
+  pose proof (@Inv_claim s t I P) as I0.
+  assert (P0 : pst (thr (claim s t) t) = PLoad b) by (unfold claim; cbn [thr]; rewrite upd_eq; reflexivity).
+  assert (H0 : hist (claim s t) (Len b) = [msg0 0]) by (unfold claim; cbn [hist]; rewrite upd_eq; reflexivity).
+  assert (W0 : forall t', tw (thr (claim s t) t') = tw (thr s t')).
+  { intro t0. unfold claim; cbn [thr]. destruct (Nat.eq_dec t0 t) as [->|N]; [rewrite upd_eq | rewrite upd_neq by auto]; reflexivity. }
+  destruct (@i_fresh s I b (le_n _)) as (_ & _ & _ & FD).
+  assert (D0 : wrs (na s (Data b 0)) = [] /\ rds (na s (Data b 0)) = []).
+  { split.
+    - destruct (wrs (na s (Data b 0))) eqn:E; [reflexivity|].
+      assert (X : 0 < length (hist s (Len b))) by (apply (@i_dfresh s I); left; rewrite E; discriminate).
+      rewrite FD in X. cbn in X. lia.
+    - destruct (rds (na s (Data b 0))) eqn:E; [reflexivity|].
+      assert (X : 0 < length (hist s (Len b))) by (apply (@i_dfresh s I); right; rewrite E; discriminate).
+      rewrite FD in X. cbn in X. lia. }
+  assert (T0 : forall t', tw (thr s t') <> Some (b, 0)).
+  { intros t' H. destruct (@i_tw s I _ _ _ H) as (_ & _ & X & _). rewrite FD in X. cbn in X. lia. }
+  destruct (@na_write_own (claim s t) t b (Next b) 0 I0 P0 eq_refl) as (I1 & P1 & H1 & B1 & W1 & N1 & V1).
+  set (s1 := na_write (claim s t) t (Next b) 0) in *.
+  destruct (@na_write_own s1 t b (LenI b) 0 I1 P1 eq_refl) as (I2 & P2 & H2 & B2 & W2 & N2 & V2).
+  set (s2 := na_write s1 t (LenI b) 0) in *.
+  destruct (@na_write_own s2 t b (Cap b) 0 I2 P2 eq_refl) as (I3 & P3 & H3 & B3 & W3 & N3 & V3).
+  set (s3 := na_write s2 t (Cap b) 0) in *.
+  assert (E3 : na s3 (Data b 0) = na s (Data b 0)).
+  { rewrite N3, N2, N1 by discriminate. reflexivity. }
+  assert (I4 : Inv (na_write s3 t (Data b 0) 0)).
+  { apply na_write_Inv; auto.
+    - intros b0 Q. discriminate.
+    - intros b0 k Q. inversion Q; subst b0 k. rewrite E3. destruct D0 as [D1 D2].
+      split; [auto|split; [auto|split]].
+      + rewrite H3, H2, H1, H0. cbn. lia.
+      + intros t'. rewrite W3, W2, W1, W0. apply T0. }
+  destruct (na_write_frame s3 t (Data b 0) 0) as (Fh & Fb & Ft & Fo & Fr & Fc & Fv).
+  set (s4 := na_write s3 t (Data b 0) 0) in *.
+  assert (P4 : pst (thr s4 t) = PLoad b) by (destruct (Ft t) as (_ & _ & -> & _); exact P3).
+  destruct (@na_write_own s4 t b (LenI b) 0 I4 P4 eq_refl) as (I5 & P5 & H5 & B5 & W5 & N5 & V5).
+  set (s5 := na_write s4 t (LenI b) 0) in *.
+  assert (E5 : wrs (na s5 (Data b 0)) = [(t, S (vc (tv (thr s3 t)) t))]).
+  { rewrite N5 by discriminate. rewrite Fc. cbn [wrs]. rewrite E3. destruct D0 as [-> _]. reflexivity. }
+  apply (@Inv_thr1 s5 _ t); try reflexivity; auto.
+  - intros t' N. unfold set_have, set_thr; cbn [thr]. rewrite upd_neq by auto. reflexivity.
+  - unfold set_have, set_thr; cbn [thr]. rewrite upd_eq. reflexivity.
+  - unfold set_have, set_thr; cbn [thr]. rewrite upd_eq. cbn [tv cur pst tw have]. auto.
+  - unfold set_have, set_thr; cbn [thr]. rewrite upd_eq. cbn [tv cur pst tw have]. reflexivity.
+  - unfold set_have, set_thr; cbn [thr]. rewrite upd_eq. cbn [tv cur pst tw have]. intros b0 e H. rewrite P5 in H. discriminate.
+  - unfold set_have, set_thr; cbn [thr]. rewrite upd_eq. cbn [tv cur pst tw have]. intros b0 e. rewrite P5. discriminate.
+  - unfold set_have, set_thr; cbn [thr]. rewrite upd_eq. cbn [tv cur pst tw have]. auto.
+  - unfold set_have, set_thr; cbn [thr]. rewrite upd_eq. cbn [have]. intros b0 k [H|H]; [|auto].
+    inversion H; subst b0 k. right. rewrite E5. split; [discriminate|].
+    intros e [<-|[]]. apply (@i_clock s5 I5 (Data b 0) (t, S (vc (tv (thr s3 t)) t))). left. rewrite E5. left. reflexivity.
+Qed.
+Ltac thr1_side I :=
+  unfold set_cur, set_pst, set_tw, set_have, set_thr; cbn [thr hist na nb raced];
+  first [ reflexivity
+        | (intros ? ?; rewrite upd_neq by auto; reflexivity)
+        | (rewrite upd_eq; cbn [tv cur pst tw have];
+           first [ solve [auto] | solve [apply (@i_written _ I)] | solve [apply (@i_nolate _ I)] ]) ].
+
+Lemma set_cur_Inv s t c :
+  Inv s ->
+  (forall b, c = Some b -> exists i m, nth_error (hist s Head) i = Some m /\ mval m = S b /\ vle (mview m) (tv (thr s t))) ->
+  Inv (set_cur s t c).
+Proof. intros I H. apply (@Inv_thr1 s _ t); auto; thr1_side I. Qed.
+
+Lemma set_pst_Inv s t p :
+  Inv s -> powner p = powner (pst (thr s t)) ->
+  (forall b e, p = PLoop b e true -> nval (na s (Next b)) = e) -> (forall b e, p <> PLate b e) ->
+  Inv (set_pst s t p).
+Proof. intros I H1 H2 H3. apply (@Inv_thr1 s _ t); auto; thr1_side I. Qed.
+
+Lemma set_tw_Inv s t r :
+  Inv s ->
+  (forall b k, r = Some (b, k) -> tw (thr s t) = Some (b, k) \/
+     (wrs (na s (Data b k)) = [] /\ rds (na s (Data b k)) = [] /\ k < length (hist s (Len b)) /\
+      forall t', tw (thr s t') <> Some (b, k))) ->
+  Inv (set_tw s t r).
+Proof. intros I H. apply (@Inv_thr1 s _ t); auto; thr1_side I. Qed.
+
+Lemma set_have_Inv s t h :
+  Inv s ->
+  (forall b k, In (b, k) h -> In (b, k) (have (thr s t)) \/
+     (wrs (na s (Data b k)) <> [] /\ covers (tv (thr s t)) (wrs (na s (Data b k))))) ->
+  Inv (set_have s t h).
+Proof. intros I H. apply (@Inv_thr1 s _ t); auto; thr1_side I. Qed.
+
+Definition adequate (o : site -> ordering) : bool := is_rel (o PushCasOk) && is_acq (o IterLoad).
+
+Lemma grows_fields s s1 : grows s s1 ->
+  hist s1 = hist s /\ na s1 = na s /\ nb s1 = nb s /\ tsame s s1.
+Proof. intros (A & B & C & D & E). auto. Qed.
+
+Lemma step_PushLoad c s t i s' : Inv s -> step c s (LPushLoad t i) = Some s' -> Inv s'.
+Proof.
+  intros I. cbn. destruct (pst (thr s t)) as [|b| |] eqn:P; try discriminate.
+  destruct (a_load s t Head i (ord c PushHeadLoad)) as [[s1 m]|] eqn:L; [|discriminate].
+  intro H; inversion H; subst; clear H. destruct (@a_load_spec _ _ _ _ _ _ _ L) as (G & _ & _).
+  pose proof (@grows_Inv _ _ G I) as I1. destruct (@grows_fields _ _ G) as (_ & _ & _ & T).
+  apply set_pst_Inv; auto.
+  - destruct (T t) as (_ & _ & -> & _). rewrite P. reflexivity.
+  - intros b0 e H. discriminate.
+  - intros b0 e H. discriminate.
+Qed.
+
+Lemma step_PushWrite c s t s' : Inv s -> step c s (LPushWrite t) = Some s' -> Inv s'.
+Proof.
+  intros I. cbn. destruct (pst (thr s t)) as [|b|b e w|b e] eqn:P; try discriminate.
+  2: { exfalso. apply (@i_nolate s I t b e P). }
+  intro H; inversion H; subst; clear H.
+  destruct (na_write_frame s t (Next b) e) as (Fh & Fb & Ft & Fo & Fr & Fc & Fv).
+  assert (I1 : Inv (na_write s t (Next b) e)).
+  { apply na_write_Inv; auto.
+    - intros b0 Q. inversion Q; subst b0. split; [rewrite P; reflexivity|].
+      intros _ e0 H. rewrite P in H. inversion H. reflexivity.
+    - intros b0 k Q. discriminate. }
+  apply set_pst_Inv; auto.
+  - destruct (Ft t) as (_ & _ & -> & _). rewrite P. reflexivity.
+  - intros b0 e0 H. inversion H; subst. rewrite Fc. reflexivity.
+  - intros b0 e0 H. discriminate.
+Qed.
+
+Lemma step_PushCas c s t ok i s' :
+  is_rel (ord c PushCasOk) = true -> next_first c = true ->
+  Inv s -> step c s (LPushCas t ok i) = Some s' -> Inv s'.
+Proof.
+  intros R NF I. cbn. destruct (pst (thr s t)) as [|b|b e w|b e] eqn:P; try discriminate.
+  destruct ok.
+  - rewrite NF. cbn [negb]. rewrite orb_false_r. destruct w; [|discriminate].
+    unfold a_rmw. destruct (nth_error (hist s Head) (pred (length (hist s Head)))) as [m|] eqn:ML; [|discriminate].
+    destruct (mval m =? e) eqn:E; [|discriminate]. apply Nat.eqb_eq in E.
+    intro H; inversion H; subst s'; clear H. rewrite R.
+    eapply (@Inv_publish s _ t b e m); eauto; unfold set_pst, set_thr; cbn [hist na nb raced thr].
+    + rewrite upd_eq. reflexivity.
+    + intros l N. rewrite upd_neq by auto. reflexivity.
+    + intros t' N. rewrite !upd_neq by auto. reflexivity.
+    + rewrite !upd_eq. cbn [tv with_tv]. apply vle_setco_inv, vle_ifacq.
+    + rewrite !upd_eq. reflexivity.
+    + rewrite !upd_eq. reflexivity.
+    + rewrite !upd_eq. reflexivity.
+    + rewrite !upd_eq. reflexivity.
+    + reflexivity.
+    + cbn [mview]. apply vle_join_r.
+    + cbn [mview]. eapply vle_trans; [|apply vle_join_l]. apply vle_setco_inv, vle_ifacq.
+  - destruct (a_load s t Head i (ord c PushCasFail)) as [[s1 m]|] eqn:L; [|discriminate].
+    intro H; inversion H; subst; clear H. destruct (@a_load_spec _ _ _ _ _ _ _ L) as (G & _ & _).
+    pose proof (@grows_Inv _ _ G I) as I1. destruct (@grows_fields _ _ G) as (_ & _ & _ & T).
+    apply set_pst_Inv; auto.
+    + destruct (T t) as (_ & _ & -> & _). rewrite P. reflexivity.
+    + intros b0 e0 H. discriminate.
+    + intros b0 e0 H. discriminate.
+Qed.
+
+Lemma step_WalkStart c s t i s' :
+  is_acq (ord c IterLoad) = true -> Inv s -> step c s (LWalkStart t i) = Some s' -> Inv s'.
+Proof.
+  intros A I. cbn.
+  destruct (a_load s t Head i (ord c IterLoad)) as [[s1 m]|] eqn:L; [|discriminate].
+  intro H; inversion H; subst; clear H. destruct (@a_load_spec _ _ _ _ _ _ _ L) as (G & N & V).
+  pose proof (@grows_Inv _ _ G I) as I1. destruct (@grows_fields _ _ G) as (Hh & _ & _ & T).
+  apply set_cur_Inv; auto.
+  intros b Q. exists i, m. rewrite Hh. split; [auto|split; [|auto]].
+  destruct (mval m); cbn in Q; inversion Q; reflexivity.
+Qed.
+
+(* what a walker knows about the bucket under its cursor *)
+Lemma cur_facts s t b : Inv s -> cur (thr s t) = Some b ->
+  b < nb s /\ bcov s b (tv (thr s t)) /\ (forall t', powner (pst (thr s t')) <> Some b).
+Proof.
+  intros I C. destruct (@i_cur s I t b C) as (i & m & A & B & V).
+  destruct (@i_head s I i m b A B) as (L & (C1 & C2 & C3) & _ & D).
+  split; [auto|split; [|auto]]. repeat split; eapply covers_mono; eauto.
+Qed.
+
+Lemma step_Visit c s t s' : Inv s -> step c s (LVisit t) = Some s' -> Inv s'.
+Proof.
+  intros I. cbn. destruct (cur (thr s t)) as [b|] eqn:C; [|discriminate].
+  intro H; inversion H; subst; clear H. destruct (cur_facts _ I C) as (L & (C1 & C2 & C3) & D).
+  apply na_read_Inv; auto.
+  - intros b0 Q. inversion Q; subst. auto.
+  - discriminate.
+Qed.
+
+Lemma step_WalkNext c s t s' : Inv s -> step c s (LWalkNext t) = Some s' -> Inv s'.
+Proof.
+  intros I. cbn. destruct (cur (thr s t)) as [b|] eqn:C; [|discriminate].
+  intro H; inversion H; subst; clear H. destruct (cur_facts _ I C) as (L & (C1 & C2 & C3) & D).
+  assert (I1 : Inv (na_read s t (Next b))).
+  { apply na_read_Inv; auto.
+    - intros b0 Q. inversion Q; subst. auto.
+    - discriminate. }
+  destruct (na_read_frame s t (Next b)) as (Fh & Fb & Ft & _).
+  apply set_cur_Inv; auto.
+  intros b' Q. rewrite Fh.
+  destruct (@i_cur s I t b C) as (i & m & A & B & V).
+  destruct (@i_head s I i m b A B) as (_ & _ & NV & _).
+  rewrite NV in Q. destruct i as [|j]; [discriminate|]. cbn in Q.
+  destruct (nth_error (hist s Head) j) as [mj|] eqn:J; [|discriminate].
+  exists j, mj. split; [auto|split].
+  - destruct (mval mj); cbn in Q; inversion Q; reflexivity.
+  - eapply vle_trans; [apply (@i_chain s I j mj m J A)|]. eapply vle_trans; [exact V|]. apply Ft.
+Qed.
+
+Lemma read_leni_Inv s t b : Inv s -> cur (thr s t) = Some b ->
+  let s0 := na_read s t (LenI b) in Inv s0 /\ b < nb s0 /\ tw (thr s0 t) = tw (thr s t).
+Proof.
+  intros I C s0. destruct (cur_facts _ I C) as (L & (C1 & C2 & C3) & D).
+  destruct (na_read_frame s t (LenI b)) as (Fh & Fb & Ft & _). fold s0 in Fh, Fb, Ft.
+  split; [|split; [rewrite Fb; auto | apply Ft]].
+  apply na_read_Inv; auto.
+  - intros b0 Q. inversion Q; subst. auto.
+  - discriminate.
+Qed.
+
+Lemma step_LenLoad c s t i s' : Inv s -> step c s (LLenLoad t i) = Some s' -> Inv s'.
+Proof.
+  intros I. cbn. destruct (cur (thr s t)) as [b|] eqn:C; [|discriminate].
+  destruct (read_leni_Inv _ I C) as (I0 & _).
+  destruct (a_load _ t (Len b) i (ord c LenLoad)) as [[s1 m]|] eqn:L; [|discriminate].
+  intro H; inversion H; subst; clear H. destruct (@a_load_spec _ _ _ _ _ _ _ L) as (G & _ & _).
+  apply (@grows_Inv _ _ G I0).
+Qed.
+
+Lemma step_LenCas c s t ok i s' : Inv s -> step c s (LLenCas t ok i) = Some s' -> Inv s'.
+Proof.
+  intros I. cbn. destruct (cur (thr s t)) as [b|] eqn:C; [|discriminate].
+  destruct (read_leni_Inv _ I C) as (I0 & L0 & W0).
+  set (s0 := na_read s t (LenI b)) in *.
+  destruct ok.
+  - destruct (tw (thr s t)) eqn:W; [discriminate|].
+    destruct (a_rmw s0 t (Len b) (ord c LenCasOk) 0 []) as [[[s1 m] n]|] eqn:R; [|discriminate].
+    intro H; inversion H; subst s'; clear H.
+    destruct (@a_rmw_other _ _ _ _ _ _ _ _ R) as (I1 & T & Hn & Hb & _ & En & El); auto; try discriminate.
+    { intros b0 Q. inversion Q; subst. exact L0. }
+    apply set_tw_Inv; auto.
+    intros b0 k Q. inversion Q; subst b0 k. right. rewrite Hn, El.
+    split; [|split; [|split; [lia|]]].
+    + destruct (wrs (na s0 (Data b n))) eqn:E; [reflexivity|].
+      assert (n < length (hist s0 (Len b))) by (apply (@i_dfresh s0 I0); left; rewrite E; discriminate). lia.
+    + destruct (rds (na s0 (Data b n))) eqn:E; [reflexivity|].
+      assert (n < length (hist s0 (Len b))) by (apply (@i_dfresh s0 I0); right; rewrite E; discriminate). lia.
+    + intros t' H. destruct (T t') as (_ & _ & _ & TW & _). rewrite TW in H.
+      destruct (@i_tw s0 I0 t' b n H) as (_ & _ & Y & _). lia.
+  - destruct (a_load s0 t (Len b) i (ord c LenCasFail)) as [[s1 m]|] eqn:L; [|discriminate].
+    intro H; inversion H; subst; clear H. destruct (@a_load_spec _ _ _ _ _ _ _ L) as (G & _ & _).
+    apply (@grows_Inv _ _ G I0).
+Qed.
+
+Lemma step_Copy c s t s' : Inv s -> step c s (LCopy t) = Some s' -> Inv s'.
+Proof.
+  intros I. cbn. destruct (tw (thr s t)) as [[b k]|] eqn:W; [|discriminate].
+  intro H; inversion H; subst; clear H.
+  destruct (@i_tw s I t b k W) as (A & B & C & D).
+  assert (I0 : Inv (set_tw s t None)) by (apply set_tw_Inv; [auto | intros; discriminate]).
+  set (s0 := set_tw s t None) in *.
+  assert (T0 : forall t', tw (thr s0 t') <> Some (b, k)).
+  { intros t'. unfold s0, set_tw, set_thr; cbn [thr]. destruct (Nat.eq_dec t' t) as [->|N].
+    - rewrite upd_eq. discriminate.
+    - rewrite upd_neq by auto. intro H. apply N. apply D. exact H. }
+  assert (H0 : have (thr s0 t) = have (thr s t)) by (unfold s0, set_tw, set_thr; cbn [thr]; rewrite upd_eq; reflexivity).
+  assert (I1 : Inv (na_write s0 t (Data b k) 0)).
+  { apply na_write_Inv; auto.
+    - intros b0 Q. discriminate.
+    - intros b0 k0 Q. inversion Q; subst b0 k0. auto. }
+  destruct (na_write_frame s0 t (Data b k) 0) as (Fh & Fb & Ft & Fo & Fr & Fc & Fv).
+  set (s1 := na_write s0 t (Data b k) 0) in *.
+  apply set_have_Inv; auto.
+  intros b0 k0 [Q|Q].
+  - inversion Q; subst b0 k0. right. rewrite Fc. cbn [wrs]. split; [discriminate|].
+    change (wrs (na s0 (Data b k))) with (wrs (na s (Data b k))). rewrite A.
+    intros e [<-|[]]. apply (@i_clock s1 I1 (Data b k)). left. rewrite Fc. left. reflexivity.
+  - left. destruct (Ft t) as (_ & _ & _ & _ & ->). rewrite H0. exact Q.
+Qed.
+
+Lemma step_Publish c s t l rs s' : Inv s -> step c s (LPublish t l rs) = Some s' -> Inv s'.
+Proof.
+  intros I. cbn.
+  destruct (forallb (fun r => if in_dec range_dec r (have (thr s t)) then true else false) rs) eqn:F; [|discriminate].
+  intro H; inversion H; subst; clear H.
+  apply a_store_other; auto; try discriminate.
+  intros b k Hin. split; [reflexivity|]. rewrite forallb_forall in F. specialize (F _ Hin).
+  destruct (in_dec range_dec (b, k) (have (thr s t))); [auto|discriminate].
+Qed.
+
+Lemma step_Consume c s t l i s' : Inv s -> step c s (LConsume t l i) = Some s' -> Inv s'.
+Proof.
+  intros I. cbn. destruct (a_load s t (Lk l) i Acquire) as [[s1 m]|] eqn:L; [|discriminate].
+  intro H; inversion H; subst; clear H. destruct (@a_load_spec _ _ _ _ _ _ _ L) as (G & N & V).
+  pose proof (@grows_Inv _ _ G I) as I1. destruct (@grows_fields _ _ G) as (Hh & Hn & _ & T).
+  apply set_have_Inv; auto.
+  intros b k Q. apply in_app_or in Q. destruct Q as [Q|Q].
+  - right. rewrite Hn. destruct (@i_lock s I l i m b k N Q) as (A & B). split; [auto|].
+    eapply covers_mono; [apply V; reflexivity | exact B].
+  - left. destruct (T t) as (_ & _ & _ & _ & ->). exact Q.
+Qed.
+
+Lemma step_ReadData c s t r s' : Inv s -> step c s (LReadData t r) = Some s' -> Inv s'.
+Proof.
+  intros I. cbn. destruct (in_dec range_dec r (have (thr s t))) as [Q|]; [|discriminate].
+  intro H; inversion H; subst; clear H. destruct r as [b k]. cbn [fst snd].
+  destruct (@i_have s I t b k Q) as (A & B).
+  apply na_read_Inv; auto. intros b0 Q0. discriminate.
+Qed.
+
+Lemma step_Misc c s t m k o i x s' : Inv s -> step c s (LMisc t m k o i x) = Some s' -> Inv s'.
+Proof.
+  intros I. cbn. destruct k.
+  - destruct (a_load s t (Misc m) i o) as [[s1 m0]|] eqn:L; [|discriminate].
+    intro H; inversion H; subst; clear H. destruct (@a_load_spec _ _ _ _ _ _ _ L) as (G & _ & _).
+    apply (@grows_Inv _ _ G I).
+  - intro H; inversion H; subst; clear H. apply a_store_other; auto; try discriminate. intros b k [].
+  - destruct (a_rmw s t (Misc m) o x []) as [[[s1 m0] n]|] eqn:R; [|discriminate].
+    intro H; inversion H; subst; clear H.
+    destruct (@a_rmw_other _ _ _ _ _ _ _ _ R) as (I1 & _); auto; discriminate.
+Qed.
+
+(* ---------- the theorem ---------- *)
+Theorem step_Inv c s lb s' :
+  adequate (ord c) = true -> next_first c = true -> Inv s -> step c s lb = Some s' -> Inv s'.
+Proof.
+  intros A NF I H. unfold adequate in A. apply andb_prop in A. destruct A as [A1 A2].
+  destruct lb.
+  - cbn in H. destruct (pst (thr s t)) eqn:P; try discriminate. inversion H; subst. apply alloc_Inv; auto.
+  - eapply step_PushLoad; eauto.
+  - eapply step_PushWrite; eauto.
+  - eapply step_PushCas; eauto.
+  - eapply step_WalkStart; eauto.
+  - eapply step_Visit; eauto.
+  - eapply step_WalkNext; eauto.
+  - eapply step_LenLoad; eauto.
+  - eapply step_LenCas; eauto.
+  - eapply step_Copy; eauto.
+  - eapply step_Publish; eauto.
+  - eapply step_Consume; eauto.
+  - eapply step_ReadData; eauto.
+  - eapply step_Misc; eauto.
+Qed.
+
+Theorem run_Inv c ls : adequate (ord c) = true -> next_first c = true ->
+  forall s s', Inv s -> run c s ls = Some s' -> Inv s'.
+Proof.
+  intros A NF. induction ls as [|l ls IH]; intros s s' I H; cbn in H.
+  - inversion H; subst; auto.
+  - destruct (step c s l) as [s1|] eqn:S; [|discriminate]. eapply IH; [|exact H]. eapply step_Inv; eauto.
+Qed.
+
+(* MAIN THEOREM: with adequate orderings and [next] written before the CAS, no execution -- any number of threads
+   (thread identifiers are arbitrary naturals), any number of buckets, any interleaving of skeleton steps, any
+   choice of the (possibly stale) messages read -- flags a data race. *)
+Theorem race_free c ls s' :
+  adequate (ord c) = true -> next_first c = true -> run c init ls = Some s' -> raced s' = false.
+Proof. intros A NF H. apply (@i_norace s'). eapply run_Inv; eauto. apply Inv_init. Qed.
+
+(* the orderings of every other site are irrelevant: [adequate] only looks at two sites.  In particular the
+   loads and RMWs on [len] (try_inc_length), the head load and the CAS failure ordering of push_front and every
+   counter may be Relaxed: no happens-before edge through [len] is needed, because reserved ranges are identified
+   by the unique timestamp of the reserving RMW (atomicity) and are handed to other threads through a lock. *)
+Lemma adequate_only_two o o' :
+  o' PushCasOk = o PushCasOk -> o' IterLoad = o IterLoad -> adequate o' = adequate o.
+Proof. unfold adequate. intros -> ->. reflexivity. Qed.
+
+Definition weakest : site -> ordering :=
+  fun s => match s with PushCasOk => Release | IterLoad => Acquire | _ => Relaxed end.
+Lemma weakest_adequate : adequate weakest = true. Proof. reflexivity. Qed.
+
+(* ---------- converse: the two conditions and the textual order are necessary ---------- *)
+Definition raced_after (c : cfg) (ls : list label) : option bool :=
+  match run c init ls with Some s => Some (raced s) | None => None end.
+
+(* thread 0 allocates bucket 1 and pushes it; thread 1 loads the head (reading the new message), then reads the
+   bucket's capacity *)
+Definition w_publish : list label :=
+  [LAlloc 0; LPushLoad 0 0; LPushWrite 0; LPushCas 0 true 0; LWalkStart 1 1].
+Definition ord3 (rest : site -> ordering) (a b c : ordering) : site -> ordering :=
+  fun s => match s with PushHeadLoad => a | PushCasOk => b | IterLoad => c | _ => rest s end.
+
+(* whatever the other orderings are (even SeqCst everywhere else): if the CAS is not a release or the iterator load
+   is not an acquire, the walk is a legal execution, race-free up to the head load, and the capacity read races *)
+Theorem adequate_necessary rest a b c :
+  adequate (ord3 rest a b c) = false ->
+  raced_after {| ord := ord3 rest a b c; next_first := true |} w_publish = Some false /\
+  raced_after {| ord := ord3 rest a b c; next_first := true |} (w_publish ++ [LVisit 1]) = Some true.
+Proof. destruct a, b, c; intro H; try discriminate H; vm_compute; split; reflexivity. Qed.
+
+Definition all_seqcst : site -> ordering := fun _ => SeqCst.
+Example witness_cas_relaxed :
+  let c := {| ord := ord3 all_seqcst SeqCst Relaxed SeqCst; next_first := true |} in
+  raced_after c w_publish = Some false /\ raced_after c (w_publish ++ [LVisit 1]) = Some true.
+Proof. vm_compute. split; reflexivity. Qed.
+Example witness_iter_relaxed :
+  let c := {| ord := ord3 all_seqcst SeqCst SeqCst Relaxed; next_first := true |} in
+  raced_after c w_publish = Some false /\ raced_after c (w_publish ++ [LVisit 1]) = Some true.
+Proof. vm_compute. split; reflexivity. Qed.
+(* [next] written AFTER the CAS, all orderings SeqCst: thread 1 finds the bucket and loads its [next] (no race yet:
+   it reads the initialisation), then thread 0's late write of [next] races with that load *)
+Definition w_late : list label := [LAlloc 0; LPushLoad 0 0; LPushCas 0 true 0; LWalkStart 1 1; LWalkNext 1].
+Example witness_next_after_cas :
+  let c := {| ord := all_seqcst; next_first := false |} in
+  raced_after c w_late = Some false /\ raced_after c (w_late ++ [LPushWrite 0]) = Some true.
+Proof. vm_compute. split; reflexivity. Qed.
+(* and with [next] first that CAS is simply not enabled *)
+Example late_cas_not_enabled : raced_after {| ord := all_seqcst; next_first := true |} w_late = None.
+Proof. vm_compute. reflexivity. Qed.
+
+(* non-vacuity: a long legal execution under the WEAKEST adequate orderings, exercising every kind of step,
+   stale reads, a failed and a successful CAS on both head and len, two pushers, hand-over through a lock *)
+Definition w_demo : list label :=
+  [LAlloc 0; LAlloc 1; LPushLoad 0 0; LPushLoad 1 0; LPushWrite 0; LPushWrite 1; LPushCas 0 true 0;
+   LPushCas 1 false 1; LPushWrite 1; LPushCas 1 true 0;
+   LWalkStart 2 2; LVisit 2; LLenLoad 2 0; LLenCas 2 true 0; LCopy 2; LWalkNext 2; LVisit 2; LWalkNext 2; LVisit 2;
+   LWalkStart 3 1; LLenCas 3 false 0; LLenCas 3 true 0; LCopy 3;
+   LMisc 2 0 MRmw Relaxed 0 7; LMisc 3 0 MLoad Relaxed 0 0; LMisc 3 1 MStore Relaxed 0 9;
+   LPublish 2 5 [(2, 1)]; LPublish 3 5 [(1, 1)]; LPublish 0 5 [(1, 0)]; LConsume 4 5 1; LConsume 4 5 2;
+   LReadData 4 (1, 1); LReadData 4 (2, 1); LReadData 3 (1, 1); LConsume 4 5 3; LReadData 4 (1, 0);
+   LWalkStart 4 2; LVisit 4; LWalkNext 4; LVisit 4; LWalkStart 5 0; LVisit 5; LWalkNext 5].
+Example demo_runs : raced_after {| ord := weakest; next_first := true |} w_demo = Some false.
+Proof. vm_compute. reflexivity. Qed.
+
+Print Assumptions race_free.
+Print Assumptions adequate_necessary.
